@@ -340,9 +340,12 @@ const _: () = {
                 };
 
                 if matches!(&**path.last().unwrap(), "index.html") {
-                    if !(self.omit_extensions.as_ref().is_some_and(|exts| exts.contains(&"html"))) {
-                        register(path.clone(), handler.clone());
+                    /* own path: `index.html`, or `index` when `html` is omitted */
+                    let mut own_path = path.clone();
+                    if self.omit_extensions.as_ref().is_some_and(|exts| exts.contains(&"html")) {
+                        *own_path.last_mut().unwrap() = String::from("index");
                     }
+                    register(own_path, handler.clone());
 
                     path.pop();
 
